@@ -303,7 +303,13 @@ class EarleyParser(Parser):
     def parse_prefix(self, text):
         self.table = self.chart_parse(text, self.start_symbol())
         for col in reversed(self.table):
-            states = [st for st in col.states if st.name == self.start_symbol()]
+            # Only items spanning the text from its beginning count: if the start
+            # symbol is reachable from itself, there are start items for suffixes.
+            states = [
+                st
+                for st in col.states
+                if st.name == self.start_symbol() and st.s_col.index == 0
+            ]
             if states:
                 return col.index, states
         return -1, []
